@@ -24,6 +24,8 @@ use crate::{CacheConfig, CacheRange, ChunkCache};
 mod cache_file_header;
 mod cache_item;
 pub mod test_utils;
+#[cfg(any(kani, xet_verif))]
+pub mod verif_hooks;
 
 // consistently use URL_SAFE (also file path safe) base64 codec
 pub(crate) const BASE64_ENGINE: GeneralPurpose = URL_SAFE;
@@ -347,6 +349,9 @@ impl DiskCache {
             fw.write_all(data)?;
             fw.close()?;
         }
+
+        #[cfg(any(kani, xet_verif))]
+        verif_hooks::schedule_point(self, "put:after_write_before_commit");
 
         // evict items after ensuring the file write but before committing to cache state
         // to avoid removing new item.
